@@ -278,7 +278,10 @@ func init() {
 		bin := filepath.Join(rc.Dir, "objdrv")
 		build := exec.Command("go", "build", "-race", "-o", bin, "./cmd/objdrv")
 		build.Dir = filepath.Join(verifDir, "harness")
-		build.Env = append(os.Environ(), "GOFLAGS=-mod=mod", "GOPROXY=off", "GOSUMDB=off", "GOTOOLCHAIN=local")
+		build.Env = append(os.Environ(), "GOPROXY=off", "GOSUMDB=off", "GOTOOLCHAIN=local")
+		if os.Getenv("GOFLAGS") == "" {
+			build.Env = append(build.Env, "GOFLAGS=-mod=mod")
+		}
 		if outb, err := build.CombinedOutput(); err != nil {
 			rc.infra("building the driver with -race: %v\n%s", err, string(outb))
 			return
